@@ -302,6 +302,17 @@ TIMES = [4 / SCALE, 12 / SCALE, 24 / SCALE, 40 / SCALE]
 def gen_history(rng, w, length):
     sp = Spec(w)
     ops = []
+    # half of the histories start from a configured model: administration, often a regimen, often sensitivities —
+    # the combinations that the rarely taken branches of the configuration calls depend on
+    if rng.random() < 0.5 and w['dosable']:
+        pre = [('admin', rng.choice(w['dosable']), rng.random() < 0.5)]
+        if rng.random() < 0.7:
+            pre.append(('regimen', rng.randrange(len(REGIMENS))))
+        if rng.random() < 0.6:
+            pre.append(('sens', True, None))
+        for op in pre:
+            sp.apply(op)
+            ops.append(op)
     for _ in range(length):
         op = gen_op(rng, sp)
         sp.apply(op)
@@ -421,7 +432,32 @@ def reduced_history(spec, seed, tmp, reg_events, w):
         except Exception as e:
             o['sim_error'] = '%s: %s' % (type(e).__name__, e)
         return o
-    for _ in range(rng.randint(2, 6)):
+    script = []
+    r = rng.random()
+    if r < 0.25 and len(pubs) >= 2:
+        # sensitivities on, one parameter fixed, then ONE call that releases it and fixes another
+        script = ['sens_on', ('fixd', {pubs[0]: 1.25}), ('swap', 0, 1)]
+    elif r < 0.5:
+        # sensitivities on, one parameter fixed, then released again (nothing fixed any more)
+        script = ['sens_on', ('fixd', {pubs[-1]: 0.75}), ('fixd', {pubs[-1]: None})]
+    for step in script:
+        desc.append(str(step))
+        if step == 'sens_on':
+            m.enable_sensitivities(True)
+        elif step[0] == 'fixd':
+            for name, v in step[1].items():
+                i = pubs.index(name)
+                if v is None:
+                    net_fixed.pop(i, None)
+                else:
+                    net_fixed[i] = v
+            m.fix_parameters(dict(step[1]))
+        else:
+            a, b = step[1], step[2]
+            net_fixed.pop(a, None)
+            net_fixed[b] = 1.5
+            m.fix_parameters({pubs[a]: None, pubs[b]: 1.5})
+    for _ in range(rng.randint(0 if script else 2, 6)):
         k = rng.choice(['fix', 'fix', 'fix', 'rename', 'regimen', 'sens', 'copy', 'copy'])
         desc.append(k)
         if k == 'fix':
